@@ -24,6 +24,10 @@ CHECKS = {
    text="For six subject fonts (a synthetic variable font whose GSUB carries FeatureVariations, Noto Sans Devanagari, Noto Naskh Arabic, an sbix font under two image filters, a symbol-encoded font) BFS to a fixpoint over all cache states reachable by any history of calls from a per-font alphabet of 7-18 API calls chosen to collide on cache keys; in every state every call is executed on a fresh replay and must return what it returns on a freshly loaded font. State merging uses hook H3 (digest of every mutable slot) and is cross-validated by unmerged exploration of all histories to depth 3 (thorough 4). subset / whole_font / instance / WOFF / WOFF2 decoding outputs are compared across three in-process repetitions and a second process.",
    note="Trusted: H3 digest covers all mutable Font state (cross-validated); alphabet-relative: histories consist of the listed calls; observables compared through Debug renderings.",
    technique="explicit-state BFS to fixpoint over Font cache states with a canonical fingerprint; differential oracle against a fresh object"),
+ "C02": dict(engine="mcx-choice-tree", cat="model_checking",
+   text="Text part: for 13 scripts (Devanagari, Bengali, Tamil, Malayalam, Kannada, Sinhala, Myanmar, Khmer, Arabic, Syriac, Thai, Lao, Latin/default) an alphabet with one representative per class of the script's syllable machine plus foreigners (13-20 letters); ALL strings of length <= 4 (thorough <= 5, and <= 6 over the 10 core letters) x 2-4 fixture fonts x every shaping configuration with <= 1 (thorough 2) deviations from the default (feature selection Mask default/all/empty, Custom empty/list; language; kerning; direction; vertical; unmapped script tag) are mapped, shaped and positioned on real fonts; oracle: terminates without panic, every attachment index inside the run, every attributed character from the submitted run or U+25CC, glyph ids below numGlyphs, glyph_positions total. Fault part: one byte/u16 fault at every position of GSUB/GPOS/GDEF/kern/morx of the AOTS fonts (every 12th quick, all 206 thorough) and synthetic kern fonts, each mutant shaped with all strings of length <= 2 (thorough 3) over the glyphs the AOTS lookups act on, in isolated worker processes.",
+   note="Trusted: the alphabets cover the syllable-machine classes (chosen from the Unicode/OpenType script specifications, listed in the evidence); fixture fonts; value faults from boundary menus; watchdog and allocation cap as in C01.",
+   technique="exhaustive enumeration of strings x configurations (deviation bounded) on real fonts with a well-formedness oracle, plus exhaustive single-fault enumeration of layout tables"),
 }
 
 NOT_YET = {
